@@ -1,0 +1,1 @@
+//! auth rig (verification scaffolding, cfg(rustdds_verif))
